@@ -3,6 +3,7 @@
 use crate::sched::Sim;
 
 pub mod c08;
+pub mod fe;
 pub mod selftest;
 pub mod server;
 
@@ -98,6 +99,8 @@ pub fn all() -> Vec<PropDef> {
     v.push(selftest::def());
     v.push(server::def_c04());
     v.push(c08::def());
+    v.push(fe::def_c02());
+    v.push(fe::def_c03());
     v
 }
 
